@@ -19,6 +19,7 @@ package fpgo
 //@   prop C20
 //@   opt callbacks=effectful
 //@   opt effects=trace
+//@   decreases len(fnList)
 //@   requires len(fnList) >= 1 && forall(k, 0, len(fnList), fnList[k] != nil)
 //@   ensures count: tr_len == old(tr_len) + len(fnList)
 //@   ensures order: forall(k, 0, len(fnList), tr_kind[old(tr_len)+k] == 1 && tr_fn[old(tr_len)+k] == fnList[len(fnList)-1-k])
@@ -43,6 +44,7 @@ package fpgo
 //@   prop C20
 //@   opt callbacks=effectful
 //@   opt effects=trace
+//@   decreases len(fnList)
 //@   requires len(fnList) >= 1 && forall(k, 0, len(fnList), fnList[k] != nil)
 //@   ensures count: tr_len == old(tr_len) + len(fnList)
 //@   ensures order: forall(k, 0, len(fnList), tr_kind[old(tr_len)+k] == 1 && tr_fn[old(tr_len)+k] == fnList[k])
@@ -675,3 +677,124 @@ package fpgo
 //@   ensures permutation: forall(i, 0, len(*r0), 0 <= p[i] && p[i] < len(*r0) && (*r0)[i] == oldheap((*old(streamSelf))[p[i]]))
 //@   ensures receiver-keeps-view: len(*streamSelf) == old(len(*streamSelf)) && forall(i, 0, len(*streamSelf), (*streamSelf)[i] == old((*streamSelf)[i]))
 //@ twin (StreamDef).SortByIndex (StreamForInterfaceDef).SortByIndex prop C19
+
+// ---------------------------------------------------------------------------------------------------
+// C19 - sort descriptors.  One sign convention for every CompareTo: positive when the receiver sorts before the argument
+// (the convention of CompareToOrdered, on which the "natural order" of an ascending descriptor is built).
+//@ func (ComparableOrdered).CompareTo
+//@   prop C19
+//@   requires isa(input, ComparableOrdered)
+//@   ensures convention: r0 == ite(as(input, ComparableOrdered).Val > obj.Val, 1, ite(as(input, ComparableOrdered).Val < obj.Val, 0-1, 0))
+//@ func (ComparableString).CompareTo
+//@   prop C19
+//@   requires isa(input, ComparableString)
+//@   ensures convention: (r0 > 0) == (obj.Val < as(input, ComparableString).Val) && (r0 < 0) == (as(input, ComparableString).Val < obj.Val)
+
+// the comparison of two items under descriptor d (keys through the descriptor's transformer; CompareTo / IsAscending /
+// TransformedBy of user types are deterministic functions): ascending = natural order of the key, descending = reversed;
+// an item without a key sorts after one with a key when ascending
+//@ define DKEY(d, x) = dyn("SortDescriptor.TransformedBy", d)(x)
+//@ define DASC(d) = dyn("SortDescriptor.IsAscending", d)
+//@ define DSTEP(d, a, b) = ite(!untyped(DKEY(d, a)) && !untyped(DKEY(d, b)), ite(DASC(d), dyn("Comparable.CompareTo", DKEY(d, a), DKEY(d, b)), dyn("Comparable.CompareTo", DKEY(d, b), DKEY(d, a))), ite(!untyped(DKEY(d, a)) && untyped(DKEY(d, b)), ite(DASC(d), 1, 0-1), ite(untyped(DKEY(d, a)) && !untyped(DKEY(d, b)), ite(DASC(d), 0-1, 1), 0)))
+
+// lexcmp(a, b, ds, k) names the result; the proved clause is its unfolding: the step of descriptor k, and the later
+// descriptors exactly when that step is a tie
+//@ func _compareBySortDescriptors
+//@   prop C19
+//@   opt dispatch=off
+//@   opt result-name=lexcmp
+//@   decreases len(sortDescriptors) - descriptorIndex
+//@   requires 0 <= descriptorIndex && descriptorIndex < len(sortDescriptors) && forall(k, 0, len(sortDescriptors), !untyped(sortDescriptors[k]) && dyn("SortDescriptor.TransformedBy", sortDescriptors[k]) != nil)
+//@   ensures unfold: r0 == ite(DSTEP(sortDescriptors[descriptorIndex], item1, item2) == 0 && descriptorIndex+1 < len(sortDescriptors), ufi("lexcmp", item1, item2, sortDescriptors, descriptorIndex+1), DSTEP(sortDescriptors[descriptorIndex], item1, item2))
+//@ func _hasNextDescriptor
+//@   prop C19
+//@   ensures def: r0 == (index+1 < len(sortDescriptors))
+
+// the relation the descriptor sort orders by: a precedes b when lexcmp(a, b, ds, 0) > 0.  That this is a strict weak
+// ordering on the input is the caller's side (keys with consistent CompareTo); that the comparator handed to Sort is exactly
+// this relation - strict, on the right items, from descriptor 0 - is proved.
+//@ define LEXLT(ds, a, b) = ufi("lexcmp", a, b, ds, 0) > 0
+//@ define LEXSWO(ds, s) = forall(i, 0, len(s), !LEXLT(ds, s[i], s[i])) && forall2(i, 0, len(s), j, 0, len(s), forall(k, 0, len(s), (LEXLT(ds, s[i], s[j]) && LEXLT(ds, s[j], s[k]) ==> LEXLT(ds, s[i], s[k])) && (!LEXLT(ds, s[i], s[j]) && !LEXLT(ds, s[j], s[i]) && !LEXLT(ds, s[j], s[k]) && !LEXLT(ds, s[k], s[j]) ==> !LEXLT(ds, s[i], s[k]) && !LEXLT(ds, s[k], s[i]))))
+//@ define DS_OK(ds) = len(ds) > 0 && forall(k, 0, len(ds), !untyped(ds[k]) && dyn("SortDescriptor.TransformedBy", ds[k]) != nil)
+
+//@ func SortBySortDescriptors
+//@   prop C19
+//@   modifies input
+//@   ghost p (Array Int Int)
+//@   ghostset p = Sort_p
+//@   requires DS_OK(sortDescriptors) && LEXSWO(sortDescriptors, input)
+//@   ensures permutation: PERM(input, p)
+//@   ensures ordered: forall2(i, 0, len(input), j, 0, len(input), i < j ==> !LEXLT(sortDescriptors, input[j], input[i]))
+//@   ensures stable: forall2(i, 0, len(input), j, 0, len(input), i < j && !LEXLT(sortDescriptors, input[i], input[j]) ==> p[i] < p[j])
+
+// the sorted copy: the input is not written (frame), the result is fresh storage
+//@ func SortedListBySortDescriptors
+//@   prop C19
+//@   ghost p (Array Int Int)
+//@   ghostset p = SortBySortDescriptors_p
+//@   requires DS_OK(sortDescriptors) && LEXSWO(sortDescriptors, input)
+//@   ensures fresh-copy: len(r0) == len(input) && (len(input) > 0 ==> fresh(r0))
+//@   ensures permutation: forall(i, 0, len(r0), 0 <= p[i] && p[i] < len(r0) && r0[i] == input[p[i]]) && forall2(i, 0, len(r0), j, 0, len(r0), i != j ==> p[i] != p[j])
+//@   ensures ordered: forall2(i, 0, len(r0), j, 0, len(r0), i < j ==> !LEXLT(sortDescriptors, r0[j], r0[i]))
+//@   ensures stable: forall2(i, 0, len(r0), j, 0, len(r0), i < j && !LEXLT(sortDescriptors, r0[i], r0[j]) ==> p[i] < p[j])
+
+// descriptor objects record what they are given; the builder appends descriptors in call order
+//@ func NewSimpleSortDescriptor
+//@   prop C19
+//@   ensures made: r0.ascending == ascending && r0.transformFn == transformFn
+//@ func (SimpleSortDescriptor).IsAscending
+//@   prop C19
+//@   ensures def: r0 == descriptor.ascending
+//@ func (SimpleSortDescriptor).TransformedBy
+//@   prop C19
+//@   ensures def: r0 == descriptor.transformFn
+//@ func NewFieldSortDescriptor
+//@   prop C19
+//@   ensures made: r0.SimpleSortDescriptor.ascending == ascending && r0.fieldName == fieldName
+//@ func (FieldSortDescriptor).GetFieldName
+//@   prop C19
+//@   ensures def: r0 == descriptor.fieldName
+
+// a new builder owns no storage, so the first ThenWith* allocates
+//@ func NewSortDescriptorsBuilder
+//@   prop C19
+//@   ensures empty: len(r0) == 0 && cap(r0) == 0
+
+// ThenWith* on a builder without spare capacity (every builder of 0..2 keys made by this API under Go's growth policy; the
+// precondition is what makes sibling stacks independent): the old keys in order, then the new one, in fresh storage
+//@ func (SortDescriptorsBuilder).ThenWithTransformerFunctor
+//@   prop C19
+//@   requires no-spare-capacity: cap(builder) == len(builder)
+//@   ensures appended: len(r0) == len(builder)+1 && fresh(r0) && forall(k, 0, len(builder), r0[k] == builder[k])
+//@   ensures new-key: isa(r0[len(builder)], SimpleSortDescriptor) && as(r0[len(builder)], SimpleSortDescriptor).ascending == ascending && as(r0[len(builder)], SimpleSortDescriptor).transformFn == transformFn
+//@ func (SortDescriptorsBuilder).ThenWithFieldName
+//@   prop C19
+//@   requires no-spare-capacity: cap(builder) == len(builder)
+//@   ensures appended: len(r0) == len(builder)+1 && fresh(r0) && forall(k, 0, len(builder), r0[k] == builder[k])
+//@   ensures new-key: isa(r0[len(builder)], FieldSortDescriptor) && as(r0[len(builder)], FieldSortDescriptor).fieldName == fieldName && as(r0[len(builder)], FieldSortDescriptor).SimpleSortDescriptor.ascending == ascending
+//@ func (SortDescriptorsBuilder).ThenWith
+//@   prop C19
+//@   requires no-spare-capacity: cap(builder) == len(builder)
+//@   ensures appended: len(r0) == len(builder)+len(input) && (len(input) > 0 ==> fresh(r0)) && forall(k, 0, len(builder), r0[k] == builder[k]) && forall(k, 0, len(input), r0[len(builder)+k] == input[k])
+//@ func (SortDescriptorsBuilder).GetSortDescriptors
+//@   prop C19
+//@   ensures same: r0 == builder
+
+//@ func (SortDescriptorsBuilder).ToSortedList
+//@   prop C19
+//@   ghost p (Array Int Int)
+//@   ghostset p = SortedListBySortDescriptors_p
+//@   requires DS_OK(builder) && LEXSWO(builder, input)
+//@   ensures fresh-copy: len(r0) == len(input) && (len(input) > 0 ==> fresh(r0))
+//@   ensures permutation: forall(i, 0, len(r0), 0 <= p[i] && p[i] < len(r0) && r0[i] == input[p[i]]) && forall2(i, 0, len(r0), j, 0, len(r0), i != j ==> p[i] != p[j])
+//@   ensures ordered: forall2(i, 0, len(r0), j, 0, len(r0), i < j ==> !LEXLT(builder, r0[j], r0[i]))
+//@   ensures stable: forall2(i, 0, len(r0), j, 0, len(r0), i < j && !LEXLT(builder, r0[i], r0[j]) ==> p[i] < p[j])
+//@ func (SortDescriptorsBuilder).Sort
+//@   prop C19
+//@   modifies input
+//@   ghost p (Array Int Int)
+//@   ghostset p = SortBySortDescriptors_p
+//@   requires DS_OK(builder) && LEXSWO(builder, input)
+//@   ensures permutation: PERM(input, p)
+//@   ensures ordered: forall2(i, 0, len(input), j, 0, len(input), i < j ==> !LEXLT(builder, input[j], input[i]))
+//@   ensures stable: forall2(i, 0, len(input), j, 0, len(input), i < j && !LEXLT(builder, input[i], input[j]) ==> p[i] < p[j])
